@@ -237,10 +237,7 @@ def evaluate__map_merge(self: XPathFunction, context: ta.ContextType = None) -> 
                     items.pop(k1)  # remove before to replace the key
                     items[k1] = v
                 elif duplicates == 'combine':
-                    try:
-                        items[k1].append(v)
-                    except AttributeError:
-                        items[k1] = [items[k1], v]
+                    items[k1] = _combine(items[k1], v)
                 continue
 
             # TODO: too slow. An alternative idea is to couple with the type
@@ -253,15 +250,17 @@ def evaluate__map_merge(self: XPathFunction, context: ta.ContextType = None) -> 
                         items.pop(k2)  # remove before to replace the key
                         items[k1] = v
                     elif duplicates == 'combine':
-                        try:
-                            items[k2].append(v)
-                        except AttributeError:
-                            items[k2] = [items[k2], v]
+                        items[k2] = _combine(items[k2], v)
                     break
             else:
                 items[k1] = v
 
     return XPathMap(self.parser, items)
+
+
+def _combine(v1: Any, v2: Any) -> list[Any]:
+    """Sequence concatenation of two map values, without touching the operands."""
+    return [*(v1 if isinstance(v1, list) else [v1]), *(v2 if isinstance(v2, list) else [v2])]
 
 
 @method(function('find', prefix='map', nargs=2,
